@@ -19,14 +19,15 @@ def render_ref(r):
 
 
 def pdir(pkey, root):
-    return "" if pkey == root else "sub"
+    # the root project at the top, S imported by the root from sub/, T imported only by S from sub/deep/
+    return "" if pkey == root else ("sub/deep" if pkey == "T" else "sub")
 
 
 def pj(d, f):
     return f if not d else d + "/" + f
 
 
-def make_graph(root, targets, requested):
+def make_graph(root, targets, requested, third=False):
     """targets: list of dict(proj, name, kind, deps[refs], outs[refs])"""
     ts = []
     for t in targets:
@@ -35,7 +36,7 @@ def make_graph(root, targets, requested):
         own_in = ["F:" + pj(d, "in_" + t["name"]) + "|"] if t["kind"] != "a" else []
         own_out = ["F:" + pj(d, "out_" + t["name"]) + "|.o", "C:" + d + "|echo " + t["name"]] if (t["kind"] == "b" and not t.get("noout")) else []
         ts.append(dict(t, id=tid, ownIn=own_in, ownOut=own_out, bad=t.get("bad", [])))
-    return {"root": root, "pkeys": sorted({root, "S"}), "targets": ts, "requested": requested}
+    return {"root": root, "pkeys": sorted({root, "S"} | ({"T"} if third else set())), "targets": ts, "requested": requested}
 
 
 def render_graph(g):
@@ -48,6 +49,8 @@ def render_graph(g):
             lines.append("name: %s" % pk)
         if pk == root:
             lines.append("imports:\n  S: sub")
+        if pk == "S" and "T" in g["pkeys"]:
+            lines.append("imports:\n  T: deep")
         lines.append("targets:")
         mine = [t for t in g["targets"] if t["proj"] == pk]
         if not mine:
@@ -81,26 +84,48 @@ def gen_resolve_cases(rng, n, exhaustive_small=True):
 
     def pool(root):
         p = [{"q": "", "n": "a"}, {"q": "", "n": "b"}, {"q": "S", "n": "a"}, {"q": "Z", "n": "a"}, {"q": "", "n": "c"},
-             {"q": "S", "n": "b"}]
+             {"q": "S", "n": "b"}, {"q": "T", "n": "a"}, {"q": "", "n": "d"}, {"q": "T", "n": "b"}]
         if root != "_":
             p.append({"q": root, "n": "a"})
         return p
 
     for k in range(n):
         root = rng.choice(["_", "R"])
+        # a third project, imported by S only, in a third of the cases; a larger root project in a third
+        third = rng.random() < 0.35
         universe = [(root, "a"), (root, "b"), ("S", "a"), ("S", "b")]
+        if rng.random() < 0.35:
+            universe.append((root, "d"))
+        if third:
+            universe += [("T", "a"), ("T", "b")]
         chosen = [u for u in universe if rng.random() < 0.75] or [universe[0]]
+        have = set(chosen)
         P = pool(root)
         ts = []
+        # half of the cases are biased towards VALID graphs (references mostly forwards in a random order, .output mostly of
+        # build targets), so that deep acyclic shapes - diamonds, re-referenced subtrees - are common, not only refusals
+        dag = rng.random() < 0.5
+        rng.shuffle(chosen)
+        kinds = {u: rng.choice("bbbsa" if dag else "bbsa") for u in chosen}
+        pos = {u: i for i, u in enumerate(chosen)}
         for (p, nm) in chosen:
-            kind = rng.choice("bbsa")
-            nd = rng.choice([0, 0, 1, 1, 2])
+            kind = kinds[(p, nm)]
+            nd = rng.choice([0, 1, 1, 2, 3] if dag else [0, 0, 1, 1, 2, 3])
             no = rng.choice([0, 0, 1]) if kind != "a" else 0
-            w = [6 if (r["q"] in ("", "S", root) and r["n"] in ("a", "b")) else 1 for r in P]
+            tgt = [(r["q"] or p, r["n"]) for r in P]
+            if dag:
+                w = [(8 if pos[x] > pos[(p, nm)] else 0.03) if x in have else 0.03 for x in tgt]
+                wo = [wi if (x in have and kinds[x] == "b") else 0.03 for wi, x in zip(w, tgt)]
+                if max(w) < 1:
+                    nd = rng.choice([0, 0, 0, 1])
+                if max(wo) < 1:
+                    no = rng.choice([0, 0, 0, 1]) if kind != "a" else 0
+            else:
+                w = wo = [6 if x in have else 1 for x in tgt]
             deps = [dict(x) for x in rng.choices(P, weights=w, k=nd)]
-            outs = [dict(x) for x in rng.choices(P, weights=w, k=no)]
+            outs = [dict(x) for x in rng.choices(P, weights=wo, k=no)]
             bad = [rng.choice(["S::a::b.output", "a::b::c.output", ".output", "a b.output", "a.outputs", "S::.output", "::a.output",
-                               "a.output.output", "-a.output", "R::S::a.output"])] if (kind != "a" and rng.random() < 0.06) else []
+                               "a.output.output", "-a.output", "R::S::a.output"])] if (kind != "a" and rng.random() < (0.01 if dag else 0.06)) else []
             ts.append({"proj": p, "name": nm, "kind": kind, "deps": deps, "outs": outs, "noout": kind == "b" and rng.random() < 0.25, "bad": bad})
         cli = []
         for t in ts:
@@ -108,10 +133,12 @@ def gen_resolve_cases(rng, n, exhaustive_small=True):
             cli.append(disp)
             if t["proj"] == root:
                 cli.append(t["name"])
+        if dag and rng.random() < 0.6:          # request the sources of the order: the whole graph is in the closure
+            cli = cli[:2]
         req = rng.sample(cli, min(len(cli), rng.choice([1, 1, 2, 3])))
         if rng.random() < 0.05:
             req.append(rng.choice(["nope", "S::zz", "Z::a", "a::b::c"]))
-        g = make_graph(root, ts, req)
+        g = make_graph(root, ts, req, third)
         cases.append({"id": "r%d" % k, "kindcase": "resolve", "m": g, "files": render_graph(g), "requested": req, "reps": 3})
     return cases
 
